@@ -552,6 +552,15 @@ fn main() {
                 rep.add_part(st.part);
             }
             {
+                // dual-stack host, two wildcard listeners on one port, one of them closed
+                let mut d = vx_core::DfsConfig::new("dual-stack-listener-close", 0);
+                d.wall = wall;
+                let thorough = tier == Tier::Thorough;
+                let st = vx_core::explore_dfs(&d, move |ch| fixedlat::dualstack_scenario(ch, thorough));
+                rep.violations.extend(st.violations);
+                rep.add_part(st.part);
+            }
+            {
                 // one side drops while the other keeps writing into it
                 let mut d = vx_core::DfsConfig::new("dropped-while-the-peer-keeps-writing", 0);
                 d.wall = wall;
@@ -690,6 +699,22 @@ fn replay(path: &str) {
         for l in ch.describe() {
             println!("  choice {l}");
         }
+        match e.violation {
+            Some(v) => {
+                for a in &v.actions {
+                    println!("  {a}");
+                }
+                println!("VIOLATION clause={} : {}", v.clause, v.detail);
+                std::process::exit(1);
+            }
+            None => println!("no violation on this execution"),
+        }
+        return;
+    }
+    if prop == "C13" && scenario.starts_with("c13-dualstack") {
+        println!("replaying {prop}: {scenario}");
+        let mut ch = vx_core::Chooser::from_choices(&choices);
+        let e = fixedlat::dualstack_scenario(&mut ch, false);
         match e.violation {
             Some(v) => {
                 for a in &v.actions {
